@@ -28,6 +28,8 @@ pub struct HistParams {
     pub commit_menu: Vec<Outcome>,
     pub cancel_menu: Vec<Outcome>,
     pub eod_menu: Vec<Eod>,
+    /// informational packets the terminal may add to or drop from a reply are explorer deviations
+    pub noise: bool,
 }
 
 pub struct PolSt {
@@ -78,6 +80,28 @@ impl Policy for HistPolicy {
         let issued = if req.key == "Reservation" && matches!(outcome, Outcome::Ok | Outcome::OkExtraStatus) { Some(t.free_receipt()) } else { None };
         st.chosen.push((x, outcome.clone(), issued));
         let mut steps = default_script(t, req, &outcome, 1);
+        if st.lazy && st.p.noise && matches!(x, Xch::Main | Xch::P1 | Xch::P2 | Xch::P3) && req.key != "ReadCard" {
+            // deviations from the default reply shape: no / two intermediate statuses, a print line or
+            // an extra (empty) status information ahead of the final packet
+            let r = Replies { table: t.table };
+            match ctx.dev(5, "reply-noise") {
+                1 => steps.retain(|s| !matches!(s, Step::Packet(_, l) if l == "intermediate")),
+                2 => {
+                    if let Some(i) = steps.iter().position(|s| matches!(s, Step::Packet(_, l) if l == "intermediate")) {
+                        steps.insert(i, r.intermediate(0x0a));
+                    }
+                }
+                3 => {
+                    let at = steps.len() - 1;
+                    steps.insert(at, r.print_line("RECEIPT LINE"));
+                }
+                4 => {
+                    let at = steps.len() - 1;
+                    steps.insert(at, r.status(&[("result_code", vcore::codec::Val::Int(0))], "status-empty"));
+                }
+                _ => {}
+            }
+        }
         if x == Xch::P3 && st.eod_chosen == Some(Eod::StatusCompletion) {
             // status information ahead of the final completion
             let r = Replies { table: t.table };
@@ -153,7 +177,7 @@ pub fn history(ctx: &mut Ctx, p: &HistParams, first: usize, acc: &mut Acc) -> Hi
                     let no_traffic = new.is_empty() && e1 == e0;
                     let mut c19: Vec<String> = vec![];
                     // ---- C19: what must follow an operation the terminal completed
-                    let check_cleanup = |new: &[ReqRec], main_completed: bool, open_empty: bool, main_ok: bool, is_commit: bool| -> (Vec<String>, Vec<&'static str>) {
+                    let check_cleanup = |new: &[ReqRec], main_completed: bool, open_empty: bool, main_ok: bool, _is_commit: bool| -> (Vec<String>, Vec<&'static str>) {
                         let mut c19: Vec<String> = vec![];
                         let mut wit: Vec<&'static str> = vec![];
                         let rest = &new[1.min(new.len())..];
@@ -203,9 +227,6 @@ pub fn history(ctx: &mut Ctx, p: &HistParams, first: usize, acc: &mut Acc) -> Hi
                                 }
                                 if main_ok && !res.is_ok() {
                                     c19.push(format!("end-of-day {e:?} is tolerated: the call must succeed, got {}", res.short()));
-                                }
-                                if is_commit && !main_ok && res.is_ok() {
-                                    c19.push("a commit without status information cannot produce a summary".into());
                                 }
                             }
                             None => c19.push("end-of-day never reached the terminal".into()),
